@@ -165,7 +165,12 @@ func dischargeAll(results []*funcResult, workDir string, timeoutS int, jobs int,
 					r = solvePortfolio(workDir, base, script, first, []string{"cvc5"})
 					if r.answer != "sat" && r.answer != "unsat" {
 						r1 := r
-						r = solvePortfolio(workDir, base, script, timeoutS, []string{"z3-new", "z3", "cvc5"})
+						t2 := timeoutS
+						if j.o.canary && t2 > 6 {
+							// a canary only has to fail to be proved: an undecided one is as good as a refuted one, no need to wait
+							t2 = 6
+						}
+						r = solvePortfolio(workDir, base, script, t2, []string{"z3-new", "z3", "cvc5"})
 						r.secs += r1.secs
 					}
 				}
